@@ -400,7 +400,7 @@ pub fn mutators(c: &Case) -> Vec<Mutator<Case>> {
     }
 
     if plutus && app("script-witness-for-input") && c.tx.wits.plutus_v1.is_none() && c.tx.wits.plutus_v2 == Some(vec![plutus_script()]) {
-        // base B4: the inputs are locked by the PlutusV2 script
+        // base B3v2: the inputs are locked by the PlutusV2 script
         v.push(
             Mutator::new("wits.plutus_v2=none", "script-witness-for-input", &["plutus2"], &["wits.6", "body.11"], |c: &mut Case| c.tx.wits.plutus_v2 = None).also(&["redeemer-coverage", "datum-witness"]),
         );
